@@ -1073,8 +1073,10 @@ class SqwEngine(Engine):
             sink.truncate(0)
             exc = self._create_again(mem, ctx, keep["builder"], "create_again_after_interrupt")
             if exc is not None:
-                ctx.violate("create_raised", f"[after interruption at {desc}] create() on the same builder raised {exc}",
-                            kind="create_after_interrupt_raised", exc=exc.name, _hint=hint)
+                # a refusal after an abnormal exit produces no file: the statement is about the
+                # files that ARE produced -> counted, not an alarm
+                ctx.probe("same_builder_refuses_after_interruption")
+                ctx.log("refused_after_interrupt", "same_builder", exc.name)
             else:
                 buf = sink.getvalue()
                 dec = ref_sqw.decode_file(buf)
@@ -1085,8 +1087,8 @@ class SqwEngine(Engine):
         fresh = seams.SimBytesIO(ctx=ctx)
         exc = self._create(mem, ctx, fresh, label="create_fresh_after_interrupt")
         if exc is not None:
-            ctx.violate("create_raised", f"[after interruption at {desc}] a fresh builder's create() raised {exc}",
-                        kind="create_after_interrupt_raised", exc=exc.name, _hint=hint)
+            ctx.probe("fresh_builder_refuses_after_interruption")
+            ctx.log("refused_after_interrupt", "fresh_builder", exc.name)
         else:
             buf = fresh.getvalue()
             dec = ref_sqw.decode_file(buf)
